@@ -16,8 +16,9 @@ for d in sorted(glob.glob(os.path.join(V, "seeded", "*"))):
         res = {}
         for p in props:
             r = sh("cd %s && CF_EVIDENCE_DIR=%s/.scratch/ev_recheck CF_REPLAY_DIR=%s/.scratch/rp_recheck timeout 900 /venv/bin/python harness/check.py %s" % (V, V, V, p))
-            res[p] = any(l.startswith("VIOLATION") for l in r.stdout.split("\n"))
-            if res[p]: break
+            vl = [l for l in r.stdout.split("\n") if l.startswith("VIOLATION")]
+            res[p] = False if not vl else ("failing input" if any("no-failing-input-found" not in l for l in vl) else "broken proof, no failing input")
+            if res[p] == "failing input": break
     finally:
         sh("git -C /repo checkout -- . && git -C /repo clean -fdq -e __pycache__")
     out.append("%-45s %s %s" % (os.path.basename(d), "detected" if any(res.values()) else "NOT DETECTED", res)); print(out[-1]); sys.stdout.flush()
